@@ -260,6 +260,22 @@ func c17CallVM[V constraints.Integer | *big.Int | ~[]byte, M constraints.Integer
 	return of.NewMatchField[V, M](name, x, backing...)
 }
 
+type c17KeptArg struct {
+	val  any
+	snap string
+	vt   string
+	call string
+}
+
+var c17Kept = func() []*c17KeptArg {
+	k := make([]*c17KeptArg, 12)
+	for i := range k {
+		k[i] = &c17KeptArg{val: 0, snap: "0"}
+	}
+	return k
+}()
+var c17KeptNext int
+
 // c17SpareDamage is set by c17Call when the builder wrote behind its window arguments.
 var c17SpareDamage string
 
@@ -361,13 +377,30 @@ func c17Make(vt string, v *big.Int) (val any, ok bool) {
 	return nil, false
 }
 
+// c17Text: decimal for ordinary values, hexadecimal for very wide ones (decimal conversion of a 64 KiB number is slow).
+func c17Text(v *big.Int) string {
+	if v.BitLen() > 512 {
+		return "0x" + v.Text(16)
+	}
+	return v.String()
+}
+
 func c17Snapshot(v any) string {
 	switch x := v.(type) {
 	case *big.Int:
+		if x.BitLen() > 512 { // cheap fingerprint of very wide values
+			return fmt.Sprintf("big:%d:%d:%016x", x.Sign(), x.BitLen(), prng.Hash64(x.Bytes()))
+		}
 		return x.String()
 	case []byte:
+		if len(x) > 64 {
+			return fmt.Sprintf("bytes:%d:%016x", len(x), prng.Hash64(x))
+		}
 		return fmt.Sprintf("%x", x)
 	case c17Bytes:
+		if len(x) > 64 {
+			return fmt.Sprintf("bytes:%d:%016x", len(x), prng.Hash64(x))
+		}
 		return fmt.Sprintf("%x", []byte(x))
 	case net.IP:
 		return fmt.Sprintf("%x", []byte(x))
@@ -397,13 +430,13 @@ func c17One(c *fw.Ctx, name string, W int, vt string, v *big.Int, conv string, o
 	case "3arg0":
 		win = []int{ofs, n, 0}
 	}
-	c.Distinct(prng.Hash64([]byte(fmt.Sprintf("%s/%s/%s/%s/%d/%d", name, vt, v.String(), conv, ofs, n))), v.Sign() != 0 || conv != "nomask")
+	c.Distinct(prng.Hash64([]byte(fmt.Sprintf("%s/%s/%s/%s/%d/%d", name, vt, c17Text(v), conv, ofs, n))), v.Sign() != 0 || conv != "nomask")
 	c.Set("fields", name)
 	c.Set("value_types", vt)
 	c.Set("conventions", conv)
 	locus := fmt.Sprintf("W=%d/%s", W, vt)
 	detail := func(s string) string {
-		return fmt.Sprintf("NewMatchField(%q, %s(%s), %s%v): %s", name, vt, v.String(), c17LastWinType, win, s)
+		return fmt.Sprintf("NewMatchField(%q, %s(%s), %s%v): %s", name, vt, c17Text(v), c17LastWinType, win, s)
 	}
 	before := c17Snapshot(val)
 	var f *of.MatchField
@@ -422,6 +455,18 @@ func c17One(c *fw.Ctx, name string, W int, vt string, v *big.Int, conv string, o
 	}
 	if after := c17Snapshot(val); after != before {
 		c.Violation(conv, "argument-modified", locus, detail(fmt.Sprintf("caller's value changed from %s to %s", before, after)))
+	}
+	// the caller keeps its arguments: what it passed to earlier calls must still read the same after later, unrelated calls
+	for _, k := range c17Kept {
+		if now := c17Snapshot(k.val); now != k.snap {
+			c.Violation(conv, "argument-modified", "earlier-argument", detail(fmt.Sprintf("the %s the caller had passed to an earlier call (%s) read %s then and reads %s after this call", k.vt, k.call, k.snap, now)))
+			k.snap = now
+		}
+	}
+	switch val.(type) {
+	case *big.Int, []byte, c17Bytes, net.IP, net.HardwareAddr:
+		c17Kept[c17KeptNext%len(c17Kept)] = &c17KeptArg{val: val, snap: before, vt: vt, call: fmt.Sprintf("NewMatchField(%q, ..., %v)", name, win)}
+		c17KeptNext++
 	}
 	bits := 8 * W
 	fieldMax := new(big.Int).Lsh(big.NewInt(1), uint(bits))
@@ -667,6 +712,30 @@ func c17Eval(c *fw.Ctx, data any) {
 			for _, v := range c17Values(r, 5) {
 				c17One(c, cs.Name, W, c17Types[r.Intn(len(c17Types))], v, "1arg", o, 0)
 			}
+		}
+		// very wide values: byte counts around the multiples of 256 (where an 8-bit byte count wraps) and beyond 64 KiB
+		rw := prng.Derive(c.Seed, 1719, uint64(cs.Lo), prng.Hash64([]byte(cs.Name)))
+		for _, L := range []int{255, 256, 257, 256 + W - 1, 256 + W, 256 + W + 1, 511, 512, 512 + W, 1024 + rw.Intn(W+2), 65536 + rw.Intn(W+2)} {
+			b := rw.Bytes(L)
+			b[0] |= 1
+			if rw.Bool() { // all zero behind the first byte: the bytes that remain after a wrapped count look harmless
+				for i := 1; i < len(b); i++ {
+					b[i] = 0
+				}
+			}
+			v := new(big.Int).SetBytes(b)
+			vt := []string{"bytes", "big", "named-bytes"}[rw.Intn(3)]
+			switch rw.Intn(4) {
+			case 0:
+				c17One(c, cs.Name, W, vt, v, "nomask", 0, 0)
+			case 1:
+				c17One(c, cs.Name, W, vt, v, "1arg", 0, 0)
+			case 2:
+				c17One(c, cs.Name, W, vt, v, "2arg", 0, bits)
+			default:
+				c17One(c, cs.Name, W, vt, v, "3arg0", 0, bits)
+			}
+			c.Count("very_wide_values", 1)
 		}
 	}
 }
